@@ -6,6 +6,7 @@ import Driver.Ecp
 import Driver.Bessel
 import Driver.Quad
 import Driver.Radial
+import Driver.Angular
 /-! Model driver.  Single-line requests: first token selects the layer.
 Multi-line requests: `begin <layer>` … `end`. -/
 
@@ -17,6 +18,8 @@ def radialEnv : Thunk Driver.Radial.Env := Thunk.mk fun _ => Driver.Radial.mkEnv
 def dispatch (toks : List String) : List String :=
   match toks with
   | "radial" :: rest => Driver.Radial.handle radialEnv.get rest
+  | "angular" :: rest => Driver.Angular.handle rest
+  | "rsh" :: rest => Driver.Angular.handleRsh rest
   | "history" :: rest => Driver.History.handle rest
   | "copy" :: rest => Driver.Copy.handle rest
   | "ecp" :: rest => Driver.Ecp.handle rest
